@@ -101,9 +101,36 @@ def once_in_chord_law(ctx, rng, n):
                             "%r -> %s" % (a, ga[-120:]), "%r -> %s" % (b, gb[-120:]), input_text=a)
 
 
+def keyflag_numeric_law(ctx, rng, n):
+    """the numeric key signature KeyFlag=(a,b,c,d,e,f,g): every letter gets ITS OWN entry (sign included), whatever the
+    other entries are; a natural-marked note ignores it"""
+    letters = "abcdefg"
+    base = {"c": 0, "d": 2, "e": 4, "f": 5, "g": 7, "a": 9, "b": 11}
+    cases = []
+    for _ in range(n):
+        vals = [rng.choice([0, 0, 1, -1, 2, -2]) for _ in letters]
+        txt = ",".join(("+%d" % v if (v > 0 and rng.random() < 0.5) else str(v)) for v in vals)
+        order = [rng.choice(letters) for _ in range(rng.randrange(3, 9))]
+        src = "KeyFlag=(%s) o5 l8 %s" % (txt, " ".join(order))
+        want = [60 + base[x] + vals[letters.index(x)] for x in order]
+        cases.append((src, want))
+    cases += [("KeyFlag=(0,-1,1,0,0,0,0) o5 l8 a b c d", [69, 70, 61, 62]), ("KeyFlag=(-1,0,0,2,0,0,0) o5 l8 a d", [68, 64])]
+    got = ctx.impl(["compile_ev\t%s" % vlib.enc_text(s) for s, _ in cases], stall=15)
+    for (src, want), g in zip(cases, got):
+        f = g.split("\t")
+        ctx.count("keyflag_numeric", src)
+        if len(f) < 3:
+            ctx.oracle_fail("a program with a numeric key signature does not compile", src, g[:100], "a MIDI file", input_text=src)
+            continue
+        keys = [int(ev.split(":")[3]) for ev in f[2].split("/")[0].split(";") if ev.startswith("N:")] if f[2] != "-" else []
+        if keys != want:
+            ctx.oracle_fail("numeric key signature: a letter does not get its own entry", src, str(keys), str(want), input_text=src)
+
+
 def run(ctx):
     rng = ctx.rng
     once_in_chord_law(ctx, rng, 60 if ctx.tier == "quick" else 3000)
+    keyflag_numeric_law(ctx, rng, 80 if ctx.tier == "quick" else 3000)
     n = 1500 if ctx.tier == "quick" else 40000
     asts = [astgen.program(rng) for _ in range(n)]
     spec = ctx.model(["note_spec\t%s" % a for a in asts])
